@@ -86,7 +86,8 @@ Qed.
 
 Lemma read_cells_strict_inv : forall n b sl rest,
   wf_bytes b -> read_cells true n b = Some (sl, rest) ->
-  exists r, enc_cells sl = Some r /\ b = r ++ rest /\ length sl = n /\ wf_bytes rest.
+  exists r, enc_cells sl = Some r /\ b = r ++ rest /\ length sl = n /\ wf_bytes rest /\
+            Forall (fun s => len s <= max_str_len) sl.
 Proof.
   induction n as [|n IH]; intros b sl rest Hw H; cbn [read_cells] in H.
   - inv H. exists []. repeat split; auto.
@@ -97,25 +98,26 @@ Proof.
     + apply take_spec in E2 as [-> Hls].
       apply wf_bytes_app in Hw1 as [_ Hw2].
       destruct (read_cells true n b2) as [[r' t]|] eqn:E3; [|discriminate].
-      inv H. apply IH in E3 as (r & Hr & -> & Hn & Hwt); [|assumption].
+      inv H. apply IH in E3 as (r & Hr & -> & Hn & Hwt & Hall); [|assumption].
       assert (Hlen : len s = l) by (unfold len; lia).
       exists (be 2 l ++ s ++ r). cbn [enc_cells]. rewrite Hr, Hlen.
       destruct (max_str_len <? l) eqn:E; [apply N.ltb_lt in E; unfold max_str_len in E; lia|].
       repeat split; auto; try (now rewrite <- ?app_assoc); try (cbn; lia).
+      constructor; [unfold max_str_len; lia|assumption].
     + destruct n, b1; discriminate.
 Qed.
 
 (** canonicity of the strict reader: what it accepts is exactly an encoding *)
 Theorem strlist_reencode b sl rest :
   wf_bytes b -> decode_strlist_g true b = Some (sl, rest) ->
-  exists b', encode_strlist sl = Some b' /\ b = b' ++ rest /\ wf_bytes rest.
+  exists b', encode_strlist sl = Some b' /\ b = b' ++ rest /\ wf_bytes rest /\ wf_strlist sl.
 Proof.
   intros Hw H. unfold decode_strlist_g in H.
   destruct (rd_be 4 b) as [[count b1]|] eqn:E1; [|discriminate].
   apply rd_be_inv in E1 as (-> & Hc & Hw1); [|assumption]. rewrite pow256_4 in Hc.
   destruct (count_fits count b1); [|discriminate].
-  apply read_cells_strict_inv in H as (r & Hr & -> & Hn & Hwt); [|assumption].
-  exists (be 4 count ++ r). unfold encode_strlist. rewrite Hr, Hn, N2Nat.id.
+  apply read_cells_strict_inv in H as (r & Hr & -> & Hn & Hwt & Hall); [|assumption].
+  exists (be 4 count ++ r). unfold encode_strlist, wf_strlist. rewrite Hr, Hn, N2Nat.id.
   destruct (2 ^ 32 <? count) eqn:E; [apply N.ltb_lt in E; lia|].
   repeat split; auto; try (now rewrite <- ?app_assoc).
 Qed.
@@ -245,28 +247,29 @@ Qed.
 
 Lemma read_rows_strict_inv : forall n b rows rest,
   wf_bytes b -> read_rows true n b = Some (rows, rest) ->
-  exists r, enc_rows rows = Some r /\ b = r ++ rest /\ length rows = n /\ wf_bytes rest.
+  exists r, enc_rows rows = Some r /\ b = r ++ rest /\ length rows = n /\ wf_bytes rest /\
+            Forall wf_strlist rows.
 Proof.
   induction n as [|n IH]; intros b rows rest Hw H; cbn [read_rows] in H.
   - inv H. exists []. repeat split; auto.
   - destruct (decode_strlist_g true b) as [[row b1]|] eqn:E1; [|discriminate].
-    apply strlist_reencode in E1 as (br & Hbr & -> & Hw1); [|assumption].
+    apply strlist_reencode in E1 as (br & Hbr & -> & Hw1 & Hrow); [|assumption].
     destruct (read_rows true n b1) as [[rs t]|] eqn:E2; [|discriminate].
-    inv H. apply IH in E2 as (r & Hr & -> & Hn & Hwt); [|assumption].
+    inv H. apply IH in E2 as (r & Hr & -> & Hn & Hwt & Hall); [|assumption].
     exists (br ++ r). cbn [enc_rows]. rewrite Hbr, Hr.
     repeat split; auto; try (now rewrite <- ?app_assoc); try (cbn; lia).
 Qed.
 
 Theorem block_reencode b rows rest :
   wf_bytes b -> decode_block_g true b = Some (rows, rest) ->
-  exists b', encode_block rows = Some b' /\ b = b' ++ rest /\ wf_bytes rest.
+  exists b', encode_block rows = Some b' /\ b = b' ++ rest /\ wf_bytes rest /\ wf_block rows.
 Proof.
   intros Hw H. unfold decode_block_g in H.
   destruct (rd_be 4 b) as [[count b1]|] eqn:E1; [|discriminate].
   apply rd_be_inv in E1 as (-> & Hc & Hw1); [|assumption]. rewrite pow256_4 in Hc.
   destruct (count_fits count b1); [|discriminate].
-  apply read_rows_strict_inv in H as (r & Hr & -> & Hn & Hwt); [|assumption].
-  exists (be 4 count ++ r). unfold encode_block. rewrite Hr, Hn, N2Nat.id.
+  apply read_rows_strict_inv in H as (r & Hr & -> & Hn & Hwt & Hall); [|assumption].
+  exists (be 4 count ++ r). unfold encode_block, wf_block. rewrite Hr, Hn, N2Nat.id.
   destruct (2 ^ 32 <? count) eqn:E; [apply N.ltb_lt in E; lia|].
   repeat split; auto; try (now rewrite <- ?app_assoc).
 Qed.
